@@ -111,6 +111,12 @@ def stress_inputs(tier):
     s.append(dict(label="plugins_by_package_name", strategy="client", schema=SCHEMA_MANY, queries=QUERIES_MANY, options={"scalars": SCALARS, "plugins": ["ariadne_codegen.contrib"]}))
     s.append(dict(label="plugins_by_module_and_class", strategy="client", schema=corpus.SCHEMA_K, queries=FAN_QUERIES,
                   options={"plugins": ["ariadne_codegen.contrib.extract_operations", PLUGINS["shorter"], "ariadne_codegen.contrib.no_reimports"]}))
+    # an inline fragment on the interface itself next to several sub-types (the member list of the Union is built from a set)
+    s.append(dict(label="inline_on_own_interface", strategy="client", schema=corpus.SCHEMA_K,
+                  queries="query SelfIface { node { ... on Node { id } ... on User { name } ... on Admin { level } ... on Bot { version } } nodes { id ... on Node { id } ... on Admin { perms } ... on User { age } } }\n", options={}))
+    # builder classes for types whose names differ only in case (ties in a case-insensitive sort)
+    case_schema = SCHEMA_MANY.replace("type Query {", "type Url { a: Int }\ntype URL { b: Int }\ntype url { c: Int }\ntype Sku { s: Url }\ntype SKU { s: URL }\ntype Query { u1: Url u2: URL u3: url k1: Sku k2: SKU")
+    s.append(dict(label="custom_operations_case_insensitive_ties", strategy="client", schema=case_schema, queries=QUERIES_MANY, options={"scalars": SCALARS, "enable_custom_operations": True}))
     enum_frag_schema = "\n".join(f"enum En{i} {{ A B }}" for i in range(6)) + "\ntype Item { id: ID! " + " ".join(f"e{i}: En{i}" for i in range(6)) + " }\ntype Query { item: Item items: [Item!]! }\n"
     enum_frag_queries = "query GetItem { item { ...Fa ...Fb ...Fc } items { ...Fd ...Fe id e5 } }\n" + "\n".join(f"fragment F{c} on Item {{ e{i} }}" for i, c in enumerate("abcde")) + "\n"
     s.append(dict(label="enums_in_mixin_fragments_pruned", strategy="client", schema=enum_frag_schema, queries=enum_frag_queries, options={"include_all_enums": False, "include_all_inputs": False}))
